@@ -3,7 +3,8 @@
 //!
 //! TCP case:  1 1 entry variant nconn (shape nl l_1.. nt t_1..)*
 //!   entry 0 TCP remote, 1 Unix-socket remote, 2 SOCKS5 CONNECT (variant 0 IPv4, 1 domain name),
-//!         3 SOCKS4, 4 SOCKS4a, 5 HTTP CONNECT
+//!         3 SOCKS4, 4 SOCKS4a, 5 HTTP CONNECT; variant + 2 (entries 2-5): an eager local client, which sends its
+//!         first payload bytes in the same write as the request, before it has read the proxy's reply
 //!   shape 0 local writes, half-closes, then reads to EOF; target reads to EOF, then answers, closes
 //!         1 target writes, half-closes, reads to EOF; local reads to EOF, then writes, closes
 //!         2 both write at once, each half-closes when done, both read to EOF
@@ -311,7 +312,7 @@ impl World {
     }
 
     /// open a local connection through the given entry point towards the target (or the refusing port)
-    async fn open(&self, entry: u64, variant: u64, refused: bool) -> Option<Box<dyn Io>> {
+    async fn open(&self, entry: u64, variant: u64, refused: bool, eager: &[u8]) -> Option<Box<dyn Io>> {
         let tport = if refused { self.refused } else { self.target_tcp };
         match entry {
             0 => Some(Box::new(TcpStream::connect(("127.0.0.1", if refused { self.tcp_refused_remote } else { self.tcp_port })).await.ok()?)),
@@ -333,6 +334,7 @@ impl World {
                     req.extend(b"localhost");
                 }
                 req.extend(tport.to_be_bytes());
+                req.extend(eager);
                 s.write_all(&req).await.ok()?;
                 let mut rep = [0u8; 10];
                 s.read_exact(&mut rep).await.ok()?;
@@ -352,6 +354,7 @@ impl World {
                     req.extend([0, 0, 0, 1]);
                     req.extend(b"user\0localhost\0");
                 }
+                req.extend(eager);
                 s.write_all(&req).await.ok()?;
                 let mut rep = [0u8; 8];
                 s.read_exact(&mut rep).await.ok()?;
@@ -363,7 +366,9 @@ impl World {
             _ => {
                 let mut s = TcpStream::connect(("127.0.0.1", self.http_port)).await.ok()?;
                 let req = format!("CONNECT 127.0.0.1:{tport} HTTP/1.1\r\nHost: 127.0.0.1:{tport}\r\n\r\n");
-                s.write_all(req.as_bytes()).await.ok()?;
+                let mut req = req.into_bytes();
+                req.extend(eager);
+                s.write_all(&req).await.ok()?;
                 let mut head = Vec::new();
                 let mut b = [0u8; 1];
                 while !head.ends_with(b"\r\n\r\n") {
@@ -385,23 +390,27 @@ impl World {
         let total_l: usize = if shape == 6 { 1 << 21 } else if shape == 7 { 3 << 20 } else { l_chunks.iter().sum() };
         let total_t: usize = if shape == 7 { 0 } else { t_chunks.iter().sum() };
         self.scripts.lock().unwrap().insert(tag, TScript { shape, total_local: total_l, t_chunks: t_chunks.clone() });
-        let Some(s) = tokio::time::timeout(TMO, self.open(entry, variant, shape == 5)).await.ok().flatten() else {
+        // variant bit 1 (SOCKS and HTTP CONNECT entries): an eager local client, which sends its first payload bytes (the tag)
+        // in the same write as the request, before it has read the proxy's reply
+        let tagb = tag.to_be_bytes();
+        let eager = variant & 2 != 0 && entry >= 2;
+        let Some(s) = tokio::time::timeout(TMO, self.open(entry, variant & 1, shape == 5, if eager { &tagb } else { &[] })).await.ok().flatten() else {
             // a refused target may already show as a failed entry handshake: the connection is closed
             return if shape == 5 { vec![0, 1, 1, 0, 1, 0] } else { vec![0, 0, 9, 0, 0, 9] };
         };
         let (mut r, mut w) = tokio::io::split(s);
         let data = stream_bytes(tag, 0, total_l);
         let expect = stream_bytes(tag, 1, total_t);
-        let tagb = tag.to_be_bytes();
+        let tagb: &[u8] = if eager { &[] } else { &tagb };
         let l = match shape {
             0 => {
-                let _ = w.write_all(&tagb).await;
+                let _ = w.write_all(tagb).await;
                 write_chunks(&mut w, &data, &l_chunks).await;
                 let _ = w.shutdown().await;
                 read_all(&mut r, &expect).await
             }
             1 => {
-                let _ = w.write_all(&tagb).await;
+                let _ = w.write_all(tagb).await;
                 let _ = w.flush().await;
                 let o = read_all(&mut r, &expect).await;
                 write_chunks(&mut w, &data, &l_chunks).await;
@@ -410,7 +419,7 @@ impl World {
             }
             2 => {
                 let wr = async {
-                    let _ = w.write_all(&tagb).await;
+                    let _ = w.write_all(tagb).await;
                     write_chunks(&mut w, &data, &l_chunks).await;
                     let _ = w.shutdown().await;
                 };
@@ -418,25 +427,25 @@ impl World {
                 o
             }
             3 => {
-                let _ = w.write_all(&tagb).await;
+                let _ = w.write_all(tagb).await;
                 let _ = w.flush().await;
                 read_all(&mut r, &expect).await
             }
             4 => {
-                let _ = w.write_all(&tagb).await;
+                let _ = w.write_all(tagb).await;
                 write_chunks(&mut w, &data, &l_chunks).await;
                 let _ = w.flush().await;
                 Obs { len: 0, ok: 1, end: 0 }
             }
             7 => {
-                let _ = w.write_all(&tagb).await;
+                let _ = w.write_all(tagb).await;
                 let big: Vec<usize> = vec![1 << 16; total_l >> 16];
                 write_chunks(&mut w, &data, &big).await;
                 let _ = w.shutdown().await;
                 read_all(&mut r, &[]).await
             }
             6 => {
-                let _ = w.write_all(&tagb).await;
+                let _ = w.write_all(tagb).await;
                 let _ = w.flush().await;
                 // upload slowly and for ever; meanwhile read the answer to its end
                 let up = async {
@@ -676,8 +685,11 @@ pub fn generate(a: &Args, out: &mut Out) {
     };
     // one case per (entry, shape) first
     if !a.mode.contains("random-only") {
-        for (entry, variant) in [(0u64, 0u64), (1, 0), (2, 0), (2, 1), (3, 0), (4, 0), (5, 0)] {
+        for (entry, variant) in [(0u64, 0u64), (1, 0), (2, 0), (2, 1), (3, 0), (4, 0), (5, 0), (2, 2), (2, 3), (3, 2), (4, 2), (5, 2)] {
             for shape in 0..8u64 {
+                if variant >= 2 && !matches!(shape, 0 | 2 | 4) {
+                    continue;
+                }
                 if shape == 7 && !matches!(entry, 0 | 2 | 5) {
                     continue;
                 }
@@ -696,7 +708,7 @@ pub fn generate(a: &Args, out: &mut Out) {
     }
     for _ in 0..a.n {
         if rng.chance(3, 4) {
-            let (entry, variant) = rng.pick(&[(0u64, 0u64), (1, 0), (2, 0), (2, 1), (3, 0), (4, 0), (5, 0)]);
+            let (entry, variant) = rng.pick(&[(0u64, 0u64), (1, 0), (2, 0), (2, 1), (3, 0), (4, 0), (5, 0), (2, 2), (2, 3), (3, 2), (4, 2), (5, 2)]);
             let nconn = if rng.chance(1, 3) { 2 + rng.below(4) } else { 1 };
             let mut c = vec![1, 1, entry, variant, nconn];
             for _ in 0..nconn {
